@@ -164,8 +164,10 @@ class Ctx:
         }
         if broken:
             ev["coverage"]["broken"] = broken
-        os.makedirs(os.path.join(VERIF, "evidence"), exist_ok=True)
-        with open(os.path.join(VERIF, "evidence", f"{self.pid}.json"), "w") as fh:
+        # development runs against a scratch copy of the repository (VLS_REPO set) must not overwrite the registered evidence
+        evd = os.environ.get("VERIF_EVIDENCE_DIR", os.path.join(VERIF, "evidence"))
+        os.makedirs(evd, exist_ok=True)
+        with open(os.path.join(evd, f"{self.pid}.json"), "w") as fh:
             json.dump(ev, fh, indent=1, default=str)
         for l in lines:
             print(l)
